@@ -784,7 +784,22 @@ fn strip_cwd(path: &Path) -> String {
         .into_owned()
 }
 
+/// Scenario seeds with this bit set force one save style for every save of the history
+/// (bits 60..61: 0 in place, 1 atomic, 2 delete-and-recreate): the exhaustive L2 stratum.
+pub const FORCED_STYLE_BIT: u64 = 1 << 62;
+
+pub fn forced_style_seed(base: u64, style: u64) -> u64 {
+    FORCED_STYLE_BIT | ((style & 3) << 60) | (base & ((1 << 60) - 1))
+}
+
 pub fn style_for(seed: u64, op_index: usize) -> SaveStyle {
+    if seed & FORCED_STYLE_BIT != 0 {
+        return match (seed >> 60) & 3 {
+            1 => SaveStyle::Atomic,
+            2 => SaveStyle::DeleteRecreate,
+            _ => SaveStyle::InPlace,
+        };
+    }
     match crate::rng::mix(seed, op_index as u64) % 4 {
         0 => SaveStyle::Atomic,
         1 => SaveStyle::DeleteRecreate,
